@@ -2,7 +2,7 @@
 Lemmas about the repetition-body interleaving model `FlexModel/Fac/DenmRep.lean` (C17, round 4).
 Invariant `Inv`: every hand-over so far is the event's own, and every thread that is inside a repetition has put its
 own identity / position into ITS object as far as its program counter says - an object no other thread writes when the
-scope is `perRepetition`.
+scope is thread-private (`perRepetition`, `perEvent`).
 -/
 import FlexModel.Fac.DenmRep
 
@@ -15,43 +15,72 @@ theorem updC_same (c : Nat → Ctl) (t : Nat) (v : Ctl) : updC c t v t = v := by
 theorem updC_ne (c : Nat → Ctl) (t x : Nat) (v : Ctl) (hx : x ≠ t) : updC c t v x = c x := by simp [updC, hx]
 
 /-- what thread `t` (event `e`) has established about its own object -/
-structure Good (e : Event) (t : Nat) (s : St) : Prop where
+structure Good (sc : Scope) (e : Event) (t : Nat) (s : St) : Prop where
   pcle : (s.ctl t).pc ≤ 5
-  aid : 2 ≤ (s.ctl t).pc → (s.heap (.loc t (s.ctl t).k)).aid = ⟨e.station, e.seq⟩
-  pos : 3 ≤ (s.ctl t).pc → (s.heap (.loc t (s.ctl t).k)).pos = e.pos
+  aid : 2 ≤ (s.ctl t).pc → (s.heap (objOf sc t (s.ctl t).k)).aid = ⟨e.station, e.seq⟩
+  pos : 3 ≤ (s.ctl t).pc → (s.heap (objOf sc t (s.ctl t).k)).pos = e.pos
   data : 4 ≤ (s.ctl t).pc → (s.ctl t).data = ⟨⟨e.station, e.seq⟩, e.pos⟩
   lat : 5 ≤ (s.ctl t).pc → (s.ctl t).lat = e.pos.lat
 
-structure Inv (evs : List Event) (s : St) : Prop where
+structure Inv (sc : Scope) (evs : List Event) (s : St) : Prop where
   outs : ∀ o ∈ s.out, Own evs o
-  thr : ∀ t e, evs[t]? = some e → Good e t s
+  thr : ∀ t e, evs[t]? = some e → Good sc e t s
   cnt : ∀ t, (outsOf s t).length = (s.ctl t).k
 
-theorem inv_init (evs : List Event) : Inv evs init := by
+theorem inv_init (sc : Scope) (evs : List Event) : Inv sc evs init := by
   refine ⟨?_, ?_, ?_⟩
   · intro o ho; simp [init] at ho
   · intro t e _
     refine ⟨by simp [init], ?_, ?_, ?_, ?_⟩ <;> intro h <;> simp [init] at h
   · intro t; simp [outsOf, init]
 
-/-- a step of ANOTHER thread (per-repetition objects) leaves `Good e t` alone -/
-theorem good_other (e : Event) (t u : Nat) (eu : Event) (s : St) (htu : t ≠ u) (h : Good e t s) :
-    Good e t (micro .perRepetition u eu s) := by
-  have hobj : ∀ k k', Obj.loc t k ≠ Obj.loc u k' := by
-    intro k k' hc; injection hc with h1 _; exact htu h1
+/-- objects of different threads differ when the scope is thread-private -/
+theorem objOf_ne (sc : Scope) (hp : sc.threadPrivate = true) (t u k k' : Nat) (htu : t ≠ u) :
+    objOf sc t k ≠ objOf sc u k' := by
+  cases sc with
+  | perRepetition => intro hc; simp only [objOf] at hc; injection hc with h1 _; exact htu h1
+  | perEvent => intro hc; simp only [objOf] at hc; injection hc with h1 _; exact htu h1
+  | shared => simp [Scope.threadPrivate] at hp
+
+/-- the heap after a step of thread `u`, seen at an object that is not `u`'s current one -/
+theorem micro_heap_other (sc : Scope) (u : Nat) (eu : Event) (s : St) (x : Obj) (hx : x ≠ objOf sc u (s.ctl u).k) :
+    (micro sc u eu s).heap x = s.heap x := by
   unfold micro
-  simp only [objOf]
+  simp only
   split
-  · exact h
-  · split <;>
-    · refine ⟨?_, ?_, ?_, ?_, ?_⟩ <;>
-        simp only [updC_ne _ _ _ _ htu, updH_ne _ _ _ _ (hobj _ _)] <;>
-        first | exact h.pcle | exact h.aid | exact h.pos | exact h.data | exact h.lat
+  · rfl
+  · split
+    · cases sc <;> simp [updH_ne _ _ _ _ hx]
+    · simp [updH_ne _ _ _ _ hx]
+    · simp [updH_ne _ _ _ _ hx]
+    · rfl
+    · rfl
+    · rfl
+
+theorem micro_ctl_other (sc : Scope) (e : Event) (t u : Nat) (s : St) (h : u ≠ t) : (micro sc t e s).ctl u = s.ctl u := by
+  unfold micro
+  simp only
+  split
+  · rfl
+  · split <;> simp [updC_ne _ _ _ _ h]
+
+/-- a step of ANOTHER thread leaves `Good e t` alone (thread-private objects) -/
+theorem good_other (sc : Scope) (hp : sc.threadPrivate = true) (e : Event) (t u : Nat) (eu : Event) (s : St)
+    (htu : t ≠ u) (h : Good sc e t s) : Good sc e t (micro sc u eu s) := by
+  have hc : (micro sc u eu s).ctl t = s.ctl t := micro_ctl_other sc eu u t s htu
+  have hh : ∀ k, (micro sc u eu s).heap (objOf sc t k) = s.heap (objOf sc t k) :=
+    fun k => micro_heap_other sc u eu s _ (objOf_ne sc hp t u k _ htu)
+  refine ⟨?_, ?_, ?_, ?_, ?_⟩ <;> rw [hc]
+  · exact h.pcle
+  · rw [hh]; exact h.aid
+  · rw [hh]; exact h.pos
+  · exact h.data
+  · exact h.lat
 
 /-- a step of the thread itself re-establishes `Good` -/
-theorem good_self (e : Event) (t : Nat) (s : St) (h : Good e t s) : Good e t (micro .perRepetition t e s) := by
+theorem good_self (sc : Scope) (e : Event) (t : Nat) (s : St) (h : Good sc e t s) : Good sc e t (micro sc t e s) := by
   unfold micro
-  simp only [objOf]
+  simp only
   split
   · exact h
   · have hp := h.pcle
@@ -80,11 +109,11 @@ theorem good_self (e : Event) (t : Nat) (s : St) (h : Good e t s) : Good e t (mi
       refine ⟨?_, ?_, ?_, ?_, ?_⟩ <;> simp [updC_same]
 
 /-- the hand-over of thread `t` is its own -/
-theorem micro_out (e : Event) (t : Nat) (s : St) (h : Good e t s) :
-    (micro .perRepetition t e s).out = s.out ∨
-    (micro .perRepetition t e s).out = s.out ++ [⟨t, ⟨e.station, e.seq⟩, e.pos, e.pos⟩] := by
+theorem micro_out (sc : Scope) (e : Event) (t : Nat) (s : St) (h : Good sc e t s) :
+    (micro sc t e s).out = s.out ∨
+    (micro sc t e s).out = s.out ++ [⟨t, ⟨e.station, e.seq⟩, e.pos, e.pos⟩] := by
   unfold micro
-  simp only [objOf]
+  simp only
   split
   · exact Or.inl rfl
   · have hp := h.pcle
@@ -108,12 +137,12 @@ theorem micro_out (e : Event) (t : Nat) (s : St) (h : Good e t s) :
       simp only [hd, hl, hq]
 
 /-- the counter `k` of a thread advances exactly with its hand-overs -/
-theorem micro_k (e : Event) (t : Nat) (s : St) :
-    ((micro .perRepetition t e s).out = s.out ∧ ((micro .perRepetition t e s).ctl t).k = (s.ctl t).k) ∨
-    (∃ o, o.thread = t ∧ (micro .perRepetition t e s).out = s.out ++ [o] ∧
-      ((micro .perRepetition t e s).ctl t).k = (s.ctl t).k + 1) := by
+theorem micro_k (sc : Scope) (e : Event) (t : Nat) (s : St) :
+    ((micro sc t e s).out = s.out ∧ ((micro sc t e s).ctl t).k = (s.ctl t).k) ∨
+    (∃ o, o.thread = t ∧ (micro sc t e s).out = s.out ++ [o] ∧
+      ((micro sc t e s).ctl t).k = (s.ctl t).k + 1) := by
   unfold micro
-  simp only [objOf]
+  simp only
   split
   · exact Or.inl ⟨rfl, rfl⟩
   · split
@@ -124,14 +153,8 @@ theorem micro_k (e : Event) (t : Nat) (s : St) :
     · exact Or.inl ⟨rfl, by simp [updC_same]⟩
     · exact Or.inr ⟨_, rfl, rfl, by simp [updC_same]⟩
 
-theorem micro_ctl_other (sc : Scope) (e : Event) (t u : Nat) (s : St) (h : u ≠ t) : (micro sc t e s).ctl u = s.ctl u := by
-  unfold micro
-  simp only
-  split
-  · rfl
-  · split <;> simp [updC_ne _ _ _ _ h]
-
-theorem inv_step (evs : List Event) (s : St) (t : Nat) (h : Inv evs s) : Inv evs (stepT .perRepetition evs s t) := by
+theorem inv_step (sc : Scope) (hp : sc.threadPrivate = true) (evs : List Event) (s : St) (t : Nat)
+    (h : Inv sc evs s) : Inv sc evs (stepT sc evs s t) := by
   unfold stepT
   cases he : evs[t]? with
   | none => exact h
@@ -140,7 +163,7 @@ theorem inv_step (evs : List Event) (s : St) (t : Nat) (h : Inv evs s) : Inv evs
     have hg := h.thr t e he
     refine ⟨?_, ?_, ?_⟩
     · intro o ho
-      rcases micro_out e t s hg with h1 | h1
+      rcases micro_out sc e t s hg with h1 | h1
       · rw [h1] at ho; exact h.outs o ho
       · rw [h1, List.mem_append] at ho
         rcases ho with ho | ho
@@ -153,19 +176,19 @@ theorem inv_step (evs : List Event) (s : St) (t : Nat) (h : Inv evs s) : Inv evs
       · subst hut
         have : eu = e := by rw [he] at heu; exact (Option.some.inj heu).symm
         subst this
-        exact good_self eu u s hg
-      · exact good_other eu u t e s hut (h.thr u eu heu)
+        exact good_self sc eu u s hg
+      · exact good_other sc hp eu u t e s hut (h.thr u eu heu)
     · intro u
       by_cases hut : u = t
       · subst hut
-        rcases micro_k e u s with ⟨h1, h2⟩ | ⟨o, ho, h1, h2⟩
+        rcases micro_k sc e u s with ⟨h1, h2⟩ | ⟨o, ho, h1, h2⟩
         · simp only [outsOf, h1, h2]; exact h.cnt u
         · simp only [outsOf, h1, h2, List.filter_append, List.length_append]
           have := h.cnt u
           simp only [outsOf] at this
           simp [this, ho]
       · rw [micro_ctl_other _ e t u s hut]
-        rcases micro_k e t s with ⟨h1, _⟩ | ⟨o, ho, h1, _⟩
+        rcases micro_k sc e t s with ⟨h1, _⟩ | ⟨o, ho, h1, _⟩
         · simp only [outsOf, h1]; exact h.cnt u
         · simp only [outsOf, h1, List.filter_append, List.length_append]
           have hne : (o.thread == u) = false := by
@@ -175,18 +198,19 @@ theorem inv_step (evs : List Event) (s : St) (t : Nat) (h : Inv evs s) : Inv evs
           simp only [outsOf] at this
           simp [this, hne]
 
-theorem inv_run (evs : List Event) (sched : List Nat) : Inv evs (run .perRepetition evs sched) := by
+theorem inv_run (sc : Scope) (hp : sc.threadPrivate = true) (evs : List Event) (sched : List Nat) :
+    Inv sc evs (run sc evs sched) := by
   unfold run
-  suffices h : ∀ s, Inv evs s → Inv evs (sched.foldl (stepT .perRepetition evs) s) from h _ (inv_init evs)
+  suffices h : ∀ s, Inv sc evs s → Inv sc evs (sched.foldl (stepT sc evs) s) from h _ (inv_init sc evs)
   induction sched with
   | nil => intro s hs; exact hs
-  | cons t r ih => intro s hs; exact ih _ (inv_step evs s t hs)
+  | cons t r ih => intro s hs; exact ih _ (inv_step sc hp evs s t hs)
 
 /-- a thread never runs more repetitions than its event has -/
-theorem k_le_reps (evs : List Event) (sched : List Nat) (t : Nat) (e : Event) (he : evs[t]? = some e) :
-    ((run .perRepetition evs sched).ctl t).k ≤ e.reps := by
+theorem k_le_reps (sc : Scope) (evs : List Event) (sched : List Nat) (t : Nat) (e : Event) (he : evs[t]? = some e) :
+    ((run sc evs sched).ctl t).k ≤ e.reps := by
   unfold run
-  suffices h : ∀ s : St, (s.ctl t).k ≤ e.reps → ((sched.foldl (stepT .perRepetition evs) s).ctl t).k ≤ e.reps from
+  suffices h : ∀ s : St, (s.ctl t).k ≤ e.reps → ((sched.foldl (stepT sc evs) s).ctl t).k ≤ e.reps from
     h _ (by simp [init])
   induction sched with
   | nil => intro s hs; exact hs
